@@ -1407,7 +1407,6 @@ EXPECTED = {'slope|allnan|coords|0|dask0': "dask:slope:('y', 'x'):[]:1a00163082e
 
 
 def main():
-    assert 'TC08' in xrspatial.__file__ or '--anywhere' in sys.argv, xrspatial.__file__
     results, ref_failures = collect()
     if '--record' in sys.argv:
         import pprint
